@@ -17,18 +17,25 @@ def jac_fd(make_seq, params, var, h):
 
 
 def real_sequences(rng):
-    """sequences of real operators whose non-differentiable members do not touch the dynamics of partials"""
+    """sequences of real operators with a non-differentiable operator (Wait, SPOILER, PD, RESET) in the middle"""
     import epgpy as epg
     a1, p1 = rng.choice([20., 45., 75.]), rng.choice([0., 30., 90.])
     par = {"alpha": a1, "phi": p1, "tau": rng.choice([3., 8.]), "T1": rng.choice([600., 1400.]), "T2": rng.choice([40., 90.]),
            "g": rng.choice([0.0, 0.02, -0.05]), "a2": rng.choice([60., 150.])}
     shared = rng.random() < 0.5
+    # an operator WITHOUT differentiable parameter in the middle ("whatever other operators, differentiable or not")
+    mid = rng.choice(["wait", "spoiler", "pd", "pd-noreset", "reset", "wait", "spoiler-late"])
+
+    def plain_op():
+        return {"wait": epg.Wait(1.0), "spoiler": epg.SPOILER, "pd": epg.PD(1.5), "pd-noreset": epg.PD(0.7, reset=False),
+                "reset": epg.RESET, "spoiler-late": epg.Wait(1.0)}[mid]
 
     def make(p, diff):
         o1 = (lambda *names: {"order1": list(names)}) if diff else (lambda *names: {})
         ops = [epg.T(p["alpha"], p["phi"], **o1("alpha", "phi")), epg.S(1),
-               epg.E(p["tau"], p["T1"], p["T2"], p["g"], **o1("tau", "T1", "T2", "g")), epg.Wait(1.0),
-               epg.T(p["a2"], 10.0), epg.S(1 if shared else -1),
+               epg.E(p["tau"], p["T1"], p["T2"], p["g"], **o1("tau", "T1", "T2", "g")), plain_op(),
+               epg.T(p["a2"], 10.0), epg.S(1 if shared else -1)] + ([epg.SPOILER, epg.T(25.0, 40.0)] if mid == "spoiler-late" else []) + [
+
                # shared variables accumulate by the chain rule; otherwise the second E has its own constants
                (epg.E(p["tau"], p["T1"], p["T2"], p["g"], **o1("tau", "T1", "T2", "g")) if shared
                 else epg.E(7.0, 900.0, 60.0, 0.01)), epg.ADC]
@@ -40,11 +47,16 @@ KNOWN_WITNESSES = [
     ("SPOILER", lambda epg, a, d: [epg.T(a, 0, **d), epg.S(1), epg.E(5, 1000, 50), epg.SPOILER, epg.T(40, 10), epg.S(-1), epg.ADC]),
     ("RESET", lambda epg, a, d: [epg.T(a, 0, **d), epg.E(5, 1000, 50), epg.RESET, epg.T(40, 10), epg.ADC]),
     ("PD(reset=True)", lambda epg, a, d: [epg.T(a, 0, **d), epg.E(5, 1000, 50), epg.PD(2.0), epg.T(40, 10), epg.ADC]),
+    ("PD(reset=False)", lambda epg, a, d: [epg.T(a, 0, **d), epg.S(1), epg.E(5, 1000, 50), epg.PD(2.0, reset=False), epg.T(a, 10, **d), epg.E(5, 1000, 50), epg.S(-1), epg.ADC]),
+    ("X", lambda epg, a, d: [epg.PD([0.7, 0.3]), epg.T(a, 0, **d), epg.S(1),
+                             epg.X(5.0, [[-0.1, 0.1 * 0.7 / 0.3], [0.1, -0.1 * 0.7 / 0.3]], T1=[1000, 500], T2=[50, 30]), epg.T(a, 10, **d), epg.S(-1), epg.ADC]),
+    ("MultiOperator", lambda epg, a, d: [epg.T(a, 0, **d), epg.S(1), epg.E(5, 1000, 50), epg.operator.MultiOperator([epg.SPOILER, epg.PD(2.0, reset=False)]), epg.T(a, 10, **d), epg.E(5, 1000, 50), epg.ADC]),
 ]
 
 
 def known_witnesses(ctx):
-    """DESIGN section 9 item 10: non-differentiable operators do not propagate / reset the partials"""
+    """regression witnesses of the former findings (fixed by /repo 8521bf9): operators without differentiable
+    parameter act on the partials too"""
     import epgpy as epg
     for name, mk in KNOWN_WITNESSES:
         try:
@@ -64,15 +76,9 @@ def known_witnesses(ctx):
 
 def fd_search(p, h=1e-3):
     """None, or a description of a first-order partial of the final state of the synthetic program p that differs from
-    the 5-point central difference of derivative-free runs. Programs in which a SPOILER follows a declaration are
-    skipped (known finding: cannot be attributed)."""
+    the 5-point central difference of derivative-free runs."""
     import epgpy as epg
     from epgpy import opscalar, opmatrix
-    seen = False
-    for o in p["ops"]:
-        seen = seen or (o["op"] == "dop" and bool(o["order1"]))
-        if seen and o["op"] in ("spoil", "reset"):
-            return None
     variables = sorted({v for o in p["ops"] if o["op"] == "dop" for v in o["order1"]})
 
     def plain(v, x):
@@ -340,7 +346,7 @@ def run(ctx):
         # every third program is stepped out of place with differentiable operators only (the out-of-place
         # path of every non-differentiable operator, Wait included, drops the partials: known finding of C09)
         oop = (i % 3 == 2)
-        p = dprog.gen_dprogram(ctx.rng, with_order2=False, plain=() if oop else ("spoil", "wait", "pd"))
+        p = dprog.gen_dprogram(ctx.rng, with_order2=False, plain=("spoil", "wait", "pd", "reset"))
         try:
             snaps = dprog.run_impl_d(p, inplace=not oop)
         except Exception as e:
